@@ -14,6 +14,12 @@ Correspondence:
       Model/ZetaGrid.v (bounds on a level, one ulp beside it, steps .1 .3 ...).
 Oracle: every stored row recomputed from the interval's own data with
 fractions.Fraction, straight from the property's wording.
+History stage (oracle only): for a share of the untampered datasets the commands
+`set-zeta-grid -d <another step>`, `rise`, `recession` are issued again on the same
+database (the unchanged tree refuses all three and changes nothing); the oracle is
+evaluated on the tables as they stand after every command that changed them, and
+at the end: rows must trace back to their interval's data at the grid step NOW
+stored, and their levels must belong to discrete_zeta as it is NOW.
 """
 import math
 import os
@@ -265,7 +271,34 @@ def run_command(db, kind):
     return ('ok', iv, rows, view)
 
 
-def cl_case(rec, d, tamper=None):
+def db_state(db):
+    return (read_inputs(db), read_curve(db, 'rise'), read_curve(db, 'recession'))
+
+
+def history_stage(db, new_step):
+    """The commands a user issues to change the grid after the curves were assembled:
+    `set-zeta-grid -d <another step>`, then `rise` and `recession` again. A command may
+    refuse (raise and leave the database alone); whatever the commands do, the
+    resulting tables are what later commands read, so the property is evaluated on
+    every state the history passes through."""
+    steps, states = [], []
+    before = db_state(db)
+    for argv in (['set-zeta-grid', db, '-d', new_step], ['rise', db], ['recession', db]):
+        rc, exc, _ = D.cli(argv)
+        after = db_state(db)
+        changed = after != before
+        steps.append(dict(cmd=argv[0], refused=exc is not None,
+                          error=None if exc is None else '%s: %s' % (type(exc).__name__, str(exc)[:120]),
+                          changed=changed))
+        if changed:
+            states.append((len(steps), after))
+        before = after
+    if not states or states[-1][0] != len(steps):
+        states.append((len(steps), before))
+    return dict(steps=steps, states=states)
+
+
+def cl_case(rec, d, tamper=None, hist=None):
     ds = GC.to_dataset(rec)
     db, rc, exc = D.load(ds, d)
     if exc is not None:
@@ -287,19 +320,63 @@ def cl_case(rec, d, tamper=None):
     rise = run_command(db, 'rise')
     rece = run_command(db, 'recession')
     t_after = read_inputs(db)
-    return dict(stage='done', t=t, rise=rise, rece=rece, inputs_unchanged=(t == t_after))
+    history = history_stage(db, hist) if hist is not None else None
+    return dict(stage='done', t=t, rise=rise, rece=rece, inputs_unchanged=(t == t_after), history=history)
+
+
+def oracle_state(state):
+    """The property's wording evaluated on the tables as they stand (no reference to the
+    command that wrote them): grid covers the observed range, every curve row traces back
+    to a classified interval of the right kind and its own data at the grid step now
+    stored, every level of the curves belongs to discrete_zeta."""
+    t, rise, rece = state
+    bad = []
+    n_rows = len(rise[0]) + len(rise[1]) + len(rece[0]) + len(rece[1])
+    if len(t['grid']) != 1:
+        if t['grid'] or n_rows or t['dz']:
+            bad.append('zeta_grid holds %d rows while discrete_zeta has %d levels and the curve tables %d rows'
+                       % (len(t['grid']), len(t['dz']), n_rows))
+        return bad
+    if t['wl']:
+        bad += ['grid step %r: %s' % (t['grid'][0], m)
+                for m in oracle_grid([z for _, z in t['wl']], t['grid'][0], t['dz'])]
+    for kind, (iv, rows, view) in (('rise', rise), ('recession', rece)):
+        bad += oracle_curve(t, kind, iv, rows, view)
+    return bad
+
+
+def check_history(r, rec, hist, case, out):
+    h = r['history']
+    out.count('history')
+    names = ('regrid', 'rise-again', 'recession-again')
+    for name, st in zip(names, h['steps']):
+        out.count('history:%s-%s' % (name, 'refused' if st['refused'] else 'accepted'))
+        if st['refused'] and st['changed']:
+            out.count('history:%s-refused-but-changed-the-tables' % name)
+    out.count('history:state-%s' % ('changed' if any(st['changed'] for st in h['steps']) else 'unchanged'))
+    cmds = ['set-zeta-grid -d %r' % hist, 'rise', 'recession']
+    for upto, state in h['states']:
+        out.evaluations += 1
+        told = ', '.join('%s (%s)' % (c, 'refused: ' + st['error'] if st['refused'] else 'accepted')
+                         for c, st in zip(cmds[:upto], h['steps'][:upto]))
+        msgs = oracle_state(state)
+        for msg in msgs[:3]:
+            out.violation('oracle', 'after the history load, classify, set-zeta-grid -d %r, rise, recession, %s '
+                          '[grid step now stored: %s]: %s' % (rec['grid'], told, state[0]['grid'], msg), case=case)
+        if msgs:
+            break       # later states of the same history repeat the complaint
 
 
 def check_cl(cases, out, label):
     rise_strs, rece_strs, grid_strs, rise_meta, rece_meta, grid_meta = [], [], [], [], [], []
-    for n, (rec, tamper) in enumerate(cases):
+    for n, (rec, tamper, hist) in enumerate(cases):
         d = D.scratch(PROP, 'cl_db')
-        r = cl_case(rec, d, tamper)
+        r = cl_case(rec, d, tamper, hist)
         out.evaluations += 1
         out.count('CL:' + rec['cls'] + (':tampered' if tamper else ''))
         if tamper:
             out.count('tamper:' + tamper)
-        case = dict(level='CL', rec=rec, tamper=tamper)
+        case = dict(level='CL', rec=rec, tamper=tamper, history=hist)
         if r['stage'] != 'done':
             if r['stage'] == 'load':
                 out.count('CL-load-refused')
@@ -357,6 +434,8 @@ def check_cl(cases, out, label):
                                       % (kind, res[2], n_cross, len(shared_levels)), case=case)
             strs.append('(%s, %s)' % (ctables(t), ccurve(res)))
             meta.append((case, res))
+        if r['history'] is not None:
+            check_history(r, rec, hist, case, out)
         if shared.get('rise', 0) >= 1 and shared.get('recession', 0) >= 1 and tamper is None:
             out.nontriv(('cl', rec['t0'], rec['step'], rec['grid'], tuple(rec['zeta']), tuple(rec['rain'])))
     for kind, strs, meta, fn in (('rise', rise_strs, rise_meta, 'check_rise'),
@@ -448,6 +527,7 @@ def run(ctx, out):
     rng = C.rng_for(seed, PROP)
     ncl = 120 if tier == 'quick' else 1200
     ngrid = 400 if tier == 'quick' else 4000
+    hrng = C.rng_for(seed, PROP, 'history')
     cases = []
     for k in range(ncl):
         if k % 5 == 4:
@@ -463,7 +543,11 @@ def run(ctx, out):
                 # row; the remaining ones must still be filed under their own interval)
                 rec['grid'] = rng.choice([10.0, 20.0, 7.5, 15.0])
         tamper = TAMPERS[(k // 4) % len(TAMPERS)][0] if k % 4 == 3 else None
-        cases.append((rec, tamper))
+        hist = None
+        if tamper is None and k % 7 in (0, 3):
+            # a history: the grid step is changed after the curves were assembled, then rise / recession again
+            hist = hrng.choice([g for g in G.GRID_STEPS + [10.0, 7.5, 15.0] if g != rec['grid']])
+        cases.append((rec, tamper, hist))
     check_cl(cases, out, 'cl')
     gcases = [gen_grid_case(rng) for _ in range(ngrid)] + [dict(zetas=[], step=1.0)]
     check_grid(gcases, out, 'fl_grid')
@@ -471,10 +555,12 @@ def run(ctx, out):
                 'the same level (classes decay / storms with unexplained rises / sparse / record bounds on a grid '
                 'level or one ulp beside it / split levels), grid steps {1, .5, 2.5, .1, .3, 5, 2} (one case in six: 7.5, 10, 15, 20 mm, coarser than some rises), through load, '
                 'classify, set-zeta-grid, rise, recession; one case in four has its classification tables '
-                'tampered with by SQL (12 kinds). FL: populate_zeta_grid on 1-5 levels with bounds on / beside a '
+                'tampered with by SQL (12 kinds); two untampered cases in seven continue with the history `set-zeta-grid -d <another '
+                'step>`, `rise`, `recession` (each may refuse) and the same oracle is evaluated on every state the tables '
+                'pass through (grid step now stored, discrete_zeta now stored). FL: populate_zeta_grid on 1-5 levels with bounds on / beside a '
                 'grid level. Non-trivial: an untampered dataset whose rise curve and recession curve each have a '
                 'level shared by >= 2 intervals (CL), a bound exactly on a grid level (FL); distinct by the data.')
-    out.samples = [dict(level='CL', rec=cases[0][0], tamper=None), dict(level='FL-grid', **gcases[0])]
+    out.samples = [dict(level='CL', rec=cases[0][0], tamper=None, history=cases[0][2]), dict(level='FL-grid', **gcases[0])]
     out.assumptions += [
         'numpy.linalg.solve (the offsets) is not modelled: only which intervals receive an offset; a LinAlgError '
         'is counted as "no curve"',
@@ -488,6 +574,6 @@ def run(ctx, out):
 def replay(case, out):
     C.import_spowtd()
     if case['level'] == 'CL':
-        check_cl([(case['rec'], case.get('tamper'))], out, 'replay')
+        check_cl([(case['rec'], case.get('tamper'), case.get('history'))], out, 'replay')
     else:
         check_grid([dict(zetas=case['zetas'], step=case['step'])], out, 'replay')
